@@ -323,7 +323,7 @@ pub fn gen_sel(rng: &mut Rng, bias: &[(u8, u32)]) -> Sel {
 }
 
 pub fn gen_access(rng: &mut Rng, sh: &WorldShape, near: Option<(u8, u8)>) -> Access {
-    let kind = [AccKind::FindBorrow, AccKind::IterBorrow, AccKind::BorrowComp, AccKind::BorrowSlice, AccKind::BorrowSlice, AccKind::BorrowComp, AccKind::CloneWorld, AccKind::FindBorrow, AccKind::IterBorrow, AccKind::BorrowComp, AccKind::BorrowSlice, AccKind::DoubleFind, AccKind::DoubleIter, AccKind::CloneArch][rng.below(14) as usize];
+    let kind = [AccKind::FindBorrow, AccKind::IterBorrow, AccKind::BorrowComp, AccKind::BorrowSlice, AccKind::BorrowSlice, AccKind::BorrowComp, AccKind::CloneWorld, AccKind::FindBorrow, AccKind::IterBorrow, AccKind::BorrowComp, AccKind::BorrowSlice, AccKind::DoubleFind, AccKind::DoubleIter, AccKind::CloneArch, AccKind::CloneFromWorld, AccKind::CloneFromArch][rng.below(16) as usize];
     // bias towards the same archetype / same column as an enclosing access
     let (a, col) = match near {
         Some((a, c)) if rng.chance(2, 3) => (a, if rng.chance(2, 3) { c } else { rng.below(32) as u8 }),
